@@ -2,11 +2,11 @@
 
 # (engine, quick runs, thorough runs, engine options)
 PLAN = {
-    "C01": [("A", 12000, 1500000, {})],
+    "C01": [("A", 12000, 1500000, {}), ("B", 800, 60000, {})],
     "C02": [("A", 12000, 1500000, {})],
     "C04": [("A", 12000, 1500000, {})],
     "C05": [("A", 10000, 1000000, {})],
-    "C06": [("A", 12000, 1500000, {})],
+    "C06": [("A", 12000, 1500000, {}), ("B", 800, 60000, {})],
     "C07": [("A", 6000, 600000, {})],
     "C11": [("A", 8000, 800000, {})],
     "C18": [("A", 6000, 500000, {}), ("B", 1000, 80000, {})],
